@@ -585,6 +585,7 @@ CHECKS["C09"] = dict(
     parts=[
         dict(name="stop", test="TestStop", kind="rapid", checks={"quick": 40, "thorough": 2500}, shards=16, timeout={"quick": 900, "thorough": 3400}, shrinktime="60s", gomaxprocs=4, crash_is_violation=True),
         dict(name="limit", test="TestLimitAndDrain", kind="rapid", checks={"quick": 40, "thorough": 2500}, shards=16, timeout={"quick": 900, "thorough": 3400}, shrinktime="60s", gomaxprocs=4, crash_is_violation=True),
+        dict(name="removeall", test="TestRemoveAllThenStop", kind="rapid", checks={"quick": 40, "thorough": 400}, shards=16, timeout={"quick": 900, "thorough": 3400}, shrinktime="30s", crash_is_violation=False),
         dict(name="redirect", test="TestStopDuringRedirect", kind="rapid", checks={"quick": 10, "thorough": 400}, shards=16, timeout={"quick": 900, "thorough": 3400}, shrinktime="60s", gomaxprocs=4, crash_is_violation=True),
         dict(name="arrivals", test="TestStopUnderArrivals", kind="rapid", checks={"quick": 6, "thorough": 300}, shards=16, timeout={"quick": 900, "thorough": 3400}, shrinktime="20s", gomaxprocs=4, crash_is_violation=True),
     ],
